@@ -6,8 +6,9 @@ def run(ctx):
     ctx.prove("C04")
     q = ctx.tier == "quick"
     joingen.run_k(ctx, 270 if q else 7200, 30 if q else 800)
-    ctx.cov["rule"] = ("scripts whose result statement is ONE join expression: inner/left/full/cross join of 2-3 operands (inputs, or one named "
-                       "intermediate clause result), identifier sets equal / nested / joined by `using` (on identifiers, or on a measure of the "
+    ctx.cov["rule"] = ("scripts whose result statement is ONE join expression: inner/left/full/cross join of 2-4 operands (inputs, or one named "
+                       "intermediate clause result), identifier sets over Id_1..Id_3 equal / nested or overlapping in every order (widest first, narrowest "
+                       "first, identifiers shared only among later operands; several datapoints per shared key) / joined by `using` (on identifiers, or on a measure of the "
                        "first operand that is the identifier of the others), with and without aliases, homonymous and distinct measures, key-overlap "
                        "classes disjoint/partial/equal/superset, a trailing body of 0-3 clauses (filter, calc, keep, drop, rename; component "
                        "expressions of depth ≤ 3) and the final unqualification; plus a malformed stream (illegal identifier configurations, "
